@@ -1142,7 +1142,11 @@ def oracle_c05(run, ops, impl):
             gain = new["C"] - st["C"]
             moved = 0
             if res == "ok" and m["kind"] in ("transfer", "create") and m["to"] != "-" and m["to"] != m["sender"]:
-                moved = m["value"] // E12
+                # the value moves only if the sender can still afford it after the up-front gas payment (otherwise the run ends
+                # with "insufficient balance for transfer": all gas is charged, nothing moves — thorough tier, seed 7007)
+                upfront = (m["L"] * p) // E12
+                if (st["acct"][m["sender"]][1] - upfront) * E12 >= m["value"]:
+                    moved = m["value"] // E12
             fee_paid = paid - moved
             if res == "execfailed":
                 F = (m["L"] * p) // E12
